@@ -247,10 +247,13 @@ func (k Keeper) LiquidateBorrows(ctx sdk.Context, offsetCounterId uint64) error 
 	}
 	newBorrowIDs := borrowIDs[start:end]
 	for l := range newBorrowIDs {
-		err := k.LiquidateIndividualBorrow(ctx, newBorrowIDs[l], "", false)
-		if err != nil {
-			return err
-		}
+		// one borrow at a time, all-or-nothing, like the vault sweep: a failing borrow (inactive price,
+		// pool short of the collateral coins after the position was already flagged) must neither leave
+		// a half-applied seizure behind nor keep the sweep from reaching the borrows after it
+		borrowID := newBorrowIDs[l]
+		_ = utils.ApplyFuncIfNoError(ctx, func(ctx sdk.Context) error {
+			return k.LiquidateIndividualBorrow(ctx, borrowID, "", false)
+		})
 	}
 	liquidationOffsetHolder.CurrentOffset = uint64(end)
 	liquidationOffsetHolder.AppId = offsetCounterId
